@@ -25,6 +25,14 @@ def inputs(R, C, tier):
         out.append((f"scalar{r},{c}", g[r][c]))
         out.append((f"list1:{r},{c}", [g[r][c]]))
     out.append(("col2d", [[g[r][0]] for r in range(R)]))
+    if R > 1 and C > 1:
+        # arrays of exactly the plate's shape whose content is not the plate in natural order
+        colwise = [g[r][c] for c in range(C) for r in range(R)]
+        out.append(("colwise-in-plate-shape", [colwise[i * C : (i + 1) * C] for i in range(R)]))
+        inner = [list(row) for row in g]
+        inner[0][C - 1], inner[R - 1][0] = inner[R - 1][0], inner[0][C - 1]
+        out.append(("corners-kept-swapped-inside" if R * C > 4 else "anti-diagonal-swapped", inner))
+        out.append(("one-well-repeated", [[g[0][0]] * C for _ in range(R)]))
     return out
 
 
@@ -88,6 +96,9 @@ class Harness(cm.BaseB):
             yield {"k": "shift", "A": [6, 8], "B": [8, 12]}
             yield {"k": "shift", "A": [8, 12], "B": [16, 24]}
             yield {"k": "shift", "A": [16, 24], "B": [16, 24]}
+            # destinations with more than 99 columns (IDs of different length on the two plates)
+            yield {"k": "shift", "A": [8, 12], "B": [8, 120], "anchors": ["A01", "A89", "A97", "A109"]}
+            yield {"k": "shift", "A": [2, 3], "B": [2, 101], "anchors": ["A98", "A99", "B99"]}
 
     def one(self, case):
         self.tier_inputs = getattr(self, "tier", "quick")
@@ -249,6 +260,8 @@ class Harness(cm.BaseB):
         for dr in range(RB):
             for dc in range(CB):
                 anchor = well_id(dr, dc)
+                if case.get("anchors") and anchor not in case["anchors"]:
+                    continue
                 fits = RA + dr <= RB and CA + dc <= CB
                 try:
                     sh = rt.WellShifter((RA, CA), (RB, CB), anchor)
